@@ -2091,7 +2091,7 @@ def rule_shift_in_destination_type(out, tier):
 def rule_varint_decoders_agree(out, tier):
     rid = "VL1"
     out.rule(rid, "coded_stream.h: the varint decoders of CodedInputStream (the fast path over a local pointer and the path that refills the buffer) leave their loops under the same tests — "
-                  "the same break / return / throw guards, the refill test apart: what one accepts the other accepts, wherever in the buffer the value happens to start", 2)
+                  "the same break / return / throw guards, the refill test apart: what one accepts the other accepts, wherever in the buffer the value happens to start (a single shared decoding loop satisfies this trivially)", 1)
     roots, rc, err = dump(out.repo, "coded_stream.h")
     rel = BIN + "/coded_stream.h"
     if rc != 0 or not roots:
@@ -2139,13 +2139,17 @@ def rule_varint_decoders_agree(out, tier):
     fam = []
     seen = set()
     for name, fn in functions_in(cls):
-        if name and re.match(r"ReadVarInteger", name) and fn.get("id") not in seen:
+        if name and re.search(r"VarInt", name) and not re.search(r"Write|Encode|Append", name) and fn.get("id") not in seen:
             seen.add(fn.get("id"))
             ex = exits(fn)
             if ex:
                 fam.append((name, fn, ex))
-    if len(fam) < 2:
-        out.undecided(rid, "anchor/varint decoders", rel, "fewer than two varint decoders with a loop found")
+    if not fam:
+        out.undecided(rid, "anchor/varint decoders", rel, "no varint decoder with a loop found in CodedInputStream")
+        return
+    if len({name for name, _, _ in fam}) == 1:
+        name, fn, ex = fam[0]
+        out.ok(rid, "%s/single decoder" % name, "%s:%d" % (rel, fn.get("_line", 0)), "one decoding loop serves the fast path and the refill path: " + "; ".join("%s if %s" % (k, c) for k, c, _ in ex))
         return
     ref_name, ref_fn, ref = fam[0]
     ref_set = sorted((k, c) for k, c, _ in ref)
